@@ -14,6 +14,7 @@ import (
 	"strconv"
 	"strings"
 	"sync"
+	"time"
 
 	restful "github.com/emicklei/go-restful/v3"
 
@@ -139,6 +140,11 @@ func mkFilter(f Filter, stage string) restful.FilterFunction {
 		}
 	default:
 		return func(req *restful.Request, resp *restful.Response, chain *restful.FilterChain) {
+			if g, ok := req.Request.Context().Value(gateKey{}).(*Gate); ok && strings.HasPrefix(stage, "cf") {
+				if first, _ := req.Request.Context().Value(gateFirstKey{}).(string); first == stage {
+					g.Wait()
+				}
+			}
 			logStage(req, req.Request, resp, stage, false)
 			runActs(f.Pre, req, resp)
 			switch f.Kind {
@@ -156,6 +162,34 @@ func mkFilter(f Filter, stage string) restful.FilterFunction {
 		}
 	}
 }
+
+// Gate makes concurrent replays overlap for certain: when armed, every request waits at the start of
+// the first container filter until all requests of the batch have arrived there (or a timeout passes),
+// i.e. after every request built its filter chain and before any of them walks it further.
+type Gate struct {
+	mu      sync.Mutex
+	waiting int
+	want    int
+	ch      chan struct{}
+}
+
+func NewGate(n int) *Gate { return &Gate{want: n, ch: make(chan struct{})} }
+
+func (g *Gate) Wait() {
+	g.mu.Lock()
+	g.waiting++
+	if g.waiting == g.want {
+		close(g.ch)
+	}
+	g.mu.Unlock()
+	select {
+	case <-g.ch:
+	case <-time.After(150 * time.Millisecond): // safety net only: the count covers the requests that get here
+	}
+}
+
+type gateKey struct{}
+type gateFirstKey struct{}
 
 // PlainPath / PlainFPath are the patterns of the Handle / HandleWithFilter registrations.
 const PlainPath, PlainFPath = "/plain-h", "/plain-hf"
@@ -303,16 +337,21 @@ func MuxReaches(cfg *Cfg, p string) bool {
 
 // Serve runs one request through the chosen entry point of the real container.
 func Serve(c *restful.Container, cfg *Cfg, r SReq, led *Ledger) (res *Result) {
-	return serveImpl(c, cfg, r, led, true)
+	return serveImpl(c, cfg, r, led, true, nil)
 }
 
 // ServeConcurrent is Serve without the global trace slot (the recover handler cannot be attributed)
 // and with a decision about the coding taken from the response itself.
 func ServeConcurrent(c *restful.Container, cfg *Cfg, r SReq, led *Ledger) (res *Result) {
-	return serveImpl(c, cfg, r, led, false)
+	return serveImpl(c, cfg, r, led, false, nil)
 }
 
-func serveImpl(c *restful.Container, cfg *Cfg, r SReq, led *Ledger, sequential bool) (res *Result) {
+// ServeGated is ServeConcurrent with a rendezvous at the first container filter.
+func ServeGated(c *restful.Container, cfg *Cfg, r SReq, led *Ledger, g *Gate) (res *Result) {
+	return serveImpl(c, cfg, r, led, false, g)
+}
+
+func serveImpl(c *restful.Container, cfg *Cfg, r SReq, led *Ledger, sequential bool, gate *Gate) (res *Result) {
 	t := &trace{}
 	if sequential {
 		currentTrace.set(t)
@@ -331,7 +370,11 @@ func serveImpl(c *restful.Container, cfg *Cfg, r SReq, led *Ledger, sequential b
 	if r.CondPanic != "" {
 		hr.Header.Set("X-Verif-Cond-Panic", r.CondPanic)
 	}
-	hr = hr.WithContext(context.WithValue(context.Background(), ctxKey{}, t))
+	ctx := context.WithValue(context.Background(), ctxKey{}, t)
+	if gate != nil && len(cfg.CF) > 0 && cfg.CF[0].Kind != "middle" {
+		ctx = context.WithValue(context.WithValue(ctx, gateKey{}, gate), gateFirstKey{}, "cf"+strconv.Itoa(cfg.CF[0].ID))
+	}
+	hr = hr.WithContext(ctx)
 	rec := httptest.NewRecorder()
 	if r.Prior != "" {
 		rec.Header().Set("Content-Encoding", r.Prior)
